@@ -65,6 +65,13 @@ class Module:
             self.tree = ast.parse(self.src, filename=path)
         except SyntaxError as e:
             raise AnalysisError(f'cannot parse {self.relpath}: {e}')
+        self.defaulted: list[str] = []
+        if repo.baseline is not None and os.environ.get('VERIF_NO_FOLD') != '1':
+            try:
+                from .baseline import PARAMS
+                self.defaulted = _fold_new_parameters(self.tree, PARAMS.get(name, {}), repo.passed)
+            except ImportError:
+                pass
         normalise(self.tree)
         self.inlined: list[str] = []
         if repo.baseline is not None:
@@ -225,6 +232,81 @@ def _literal(e: ast.AST, imported: set, depth: int = 0) -> bool:
     return False
 
 
+def _fold_new_parameters(tree: ast.Module, known: dict, passed: dict) -> list:
+    """A parameter that a function of the confirmed tree did not have, that has a default, and that no call in the package passes (by keyword, by
+    position or through a spread) always holds its default inside the package: its reads are replaced by the default (a constant, a name or an
+    attribute chain).  This is how an option added with a neutral default disappears before the rules look at the function."""
+    import copy as _copy
+    done = []
+
+    def simple(e, depth=0):
+        if isinstance(e, ast.Constant):
+            return True
+        if isinstance(e, ast.Name):
+            return True
+        if isinstance(e, ast.Attribute) and depth < 3:
+            return simple(e.value, depth + 1)
+        if isinstance(e, ast.UnaryOp) and isinstance(e.operand, ast.Constant):
+            return True
+        if isinstance(e, ast.Tuple) and depth < 2:
+            return all(simple(x, depth + 1) for x in e.elts)
+        return False
+
+    def visit(body, prefix):
+        for n in body:
+            if isinstance(n, ast.ClassDef):
+                visit(n.body, prefix + n.name + '.')
+            elif isinstance(n, (ast.FunctionDef, ast.AsyncFunctionDef)):
+                q = prefix + n.name
+                if q in known:
+                    fold(n, q)
+                visit([x for x in ast.walk(n) if isinstance(x, (ast.FunctionDef, ast.AsyncFunctionDef, ast.ClassDef)) and x is not n and False], q + '.')
+
+    def fold(fn, q):
+        old = set(known[q])
+        pos = fn.args.posonlyargs + fn.args.args
+        defaults = dict(zip([a.arg for a in pos][len(pos) - len(fn.args.defaults):], fn.args.defaults))
+        defaults.update({a.arg: d for a, d in zip(fn.args.kwonlyargs, fn.args.kw_defaults) if d is not None})
+        rec = passed.get(fn.name, [set(), 0, False, False])
+        is_method = bool(pos) and pos[0].arg in ('self', 'cls')
+        for a in pos + fn.args.kwonlyargs:
+            p = a.arg
+            if p in old or p not in defaults or not simple(defaults[p]):
+                continue
+            if p in rec[0] or rec[2]:
+                continue
+            if a in pos:
+                idx = pos.index(a) - (1 if is_method else 0)
+                if rec[1] > idx:
+                    continue
+            # never re-bound in the body, default names not shadowed by other parameters / locals
+            stores = [x for x in ast.walk(fn) if isinstance(x, ast.Name) and x.id == p and isinstance(x.ctx, (ast.Store, ast.Del))]
+            if stores:
+                continue
+            dn = {x.id for x in ast.walk(defaults[p]) if isinstance(x, ast.Name)}
+            local = {x.arg for x in pos + fn.args.kwonlyargs} | {x.id for x in ast.walk(fn) if isinstance(x, ast.Name) and isinstance(x.ctx, ast.Store)}
+            if dn & local:
+                continue
+            n_sub = 0
+            for holder in ast.walk(fn):
+                for field, val in ast.iter_fields(holder):
+                    if holder is fn and field in ('args', 'decorator_list', 'returns'):
+                        continue
+                    if isinstance(val, ast.Name) and val.id == p and isinstance(val.ctx, ast.Load):
+                        setattr(holder, field, ast.copy_location(_copy.deepcopy(defaults[p]), val))
+                        n_sub += 1
+                    elif isinstance(val, list):
+                        for i, x in enumerate(val):
+                            if isinstance(x, ast.Name) and x.id == p and isinstance(x.ctx, ast.Load):
+                                val[i] = ast.copy_location(_copy.deepcopy(defaults[p]), x)
+                                n_sub += 1
+            ast.fix_missing_locations(fn)
+            done.append(f'{q}: new parameter {p} is never passed inside the package: {n_sub} read(s) replaced by its default {ast.unparse(defaults[p])[:40]}')
+
+    visit(tree.body, '')
+    return done
+
+
 def _fold_new_constants(tree: ast.Module, known: set) -> list:
     """A module-level constant that the confirmed tree did not have (`FULL_SAMPLE = 1.0`, `LABEL_SEPARATOR = '-'`, `CODE_DTYPE = np.int32`) is
     replaced by its value wherever a function of the module reads it: naming a literal changes nothing, and the rules compare values.  Only names
@@ -357,6 +439,38 @@ def normalise(tree: ast.AST) -> None:
       * `x = x + y` / `x = x - y`        ->  `x += y` / `x -= y`        (plain names)
       * `t = <expr>; return t`           ->  `return <expr>`            (t used nowhere else)
     Line numbers of the surviving nodes are kept."""
+    # tests over constants only (`None is not None`, `not False`, `0 == 0`: left behind when a never-passed parameter was replaced by its default)
+    def _const_test(e):
+        if isinstance(e, ast.Constant):
+            return (True, e.value)
+        if isinstance(e, ast.UnaryOp) and isinstance(e.op, ast.Not):
+            k, v = _const_test(e.operand)
+            return (k, (not v) if k else None)
+        if isinstance(e, ast.Compare) and len(e.ops) == 1:
+            (ka, a), (kb, b) = _const_test(e.left), _const_test(e.comparators[0])
+            if ka and kb:
+                op = e.ops[0]
+                try:
+                    if isinstance(op, ast.Is):
+                        return (True, a is b) if (a is None or b is None or isinstance(a, bool) or isinstance(b, bool)) else (False, None)
+                    if isinstance(op, ast.IsNot):
+                        return (True, a is not b) if (a is None or b is None or isinstance(a, bool) or isinstance(b, bool)) else (False, None)
+                    if isinstance(op, ast.Eq):
+                        return (True, a == b)
+                    if isinstance(op, ast.NotEq):
+                        return (True, a != b)
+                except Exception:
+                    return (False, None)
+        if isinstance(e, ast.BoolOp):
+            vals = [_const_test(v) for v in e.values]
+            if all(k for k, _ in vals):
+                return (True, all(v for _, v in vals) if isinstance(e.op, ast.And) else any(v for _, v in vals))
+        return (False, None)
+    for n in ast.walk(tree):
+        if isinstance(n, (ast.If, ast.IfExp)) and not isinstance(n.test, ast.Constant):
+            k, v = _const_test(n.test)
+            if k:
+                n.test = ast.copy_location(ast.Constant(bool(v)), n.test)
     # `if True: A else: B` -> A ; `if False: A else: B` -> B    (left behind when a helper with a flag parameter is expanded at a call site)
     for holder in ast.walk(tree):
         for field in ('body', 'orelse', 'finalbody'):
@@ -412,9 +526,14 @@ def normalise(tree: ast.AST) -> None:
         if isinstance(n, ast.If) and isinstance(n.test, ast.UnaryOp) and isinstance(n.test.op, ast.Not) and n.orelse and not (len(n.orelse) == 1 and isinstance(n.orelse[0], ast.If)):
             n.test = n.test.operand
             n.body, n.orelse = n.orelse, n.body
+    partial_names = {a.asname or a.name for n in ast.walk(tree) if isinstance(n, ast.ImportFrom) and n.module == 'functools' for a in n.names if a.name == 'partial'}
+    functools_names = {a.asname or a.name for n in ast.walk(tree) if isinstance(n, ast.Import) for a in n.names if a.name == 'functools'}
     for fn in [x for x in ast.walk(tree) if isinstance(x, (ast.FunctionDef, ast.AsyncFunctionDef))]:
         _inline_attr_aliases(fn)
         _fuse_batch_counter(fn)
+        if partial_names or functools_names:
+            _expand_partials(fn, partial_names, functools_names)
+        _expand_kwargs_tables(fn)
     for fn in [x for x in ast.walk(tree) if isinstance(x, (ast.FunctionDef, ast.AsyncFunctionDef, ast.Module))]:
         counts = {}
         pairs = {}
@@ -461,6 +580,98 @@ def normalise(tree: ast.AST) -> None:
                     out.append(st)
                     i += 1
                 body[:] = out
+
+
+def _expand_partials(fn, partial_names: set, functools_names: set) -> None:
+    """`p = partial(f, a, k=v)` ... `p(x, j=w)`  ->  `f(a, x, k=v, j=w)` when p is bound once in the function, only ever called, and what the partial
+    captured (plain names) is not re-bound between the binding and the calls (bound at most once in the function, before the partial)."""
+    import copy as _copy
+
+    def is_partial(c):
+        return isinstance(c, ast.Call) and c.args and ((isinstance(c.func, ast.Name) and c.func.id in partial_names) or
+                                                       (isinstance(c.func, ast.Attribute) and c.func.attr == 'partial' and isinstance(c.func.value, ast.Name) and c.func.value.id in functools_names))
+    own = [n for n in ast.walk(fn)]
+    inner = {id(y) for x in own if isinstance(x, (ast.FunctionDef, ast.AsyncFunctionDef, ast.Lambda)) and x is not fn for y in ast.walk(x) if y is not x}
+    binds = {}
+    for n in own:
+        if id(n) in inner:
+            continue
+        if isinstance(n, ast.Name) and isinstance(n.ctx, (ast.Store, ast.Del)):
+            binds[n.id] = binds.get(n.id, 0) + 1
+    params = {a.arg for a in fn.args.posonlyargs + fn.args.args + fn.args.kwonlyargs} | ({fn.args.vararg.arg} if fn.args.vararg else set()) | ({fn.args.kwarg.arg} if fn.args.kwarg else set())
+    for holder in own:
+        for field in ('body', 'orelse', 'finalbody'):
+            body = getattr(holder, field, None)
+            if not isinstance(body, list) or id(holder) in inner:
+                continue
+            for st in list(body):
+                if not (isinstance(st, ast.Assign) and len(st.targets) == 1 and isinstance(st.targets[0], ast.Name) and is_partial(st.value)):
+                    continue
+                p = st.targets[0].id
+                if binds.get(p, 0) != 1 or p in params:
+                    continue
+                uses = [n for n in own if isinstance(n, ast.Name) and n.id == p and isinstance(n.ctx, ast.Load)]
+                calls = [n for n in own if isinstance(n, ast.Call) and isinstance(n.func, ast.Name) and n.func.id == p]
+                if not calls or len(uses) != len(calls) or any(c.lineno < st.lineno for c in calls):
+                    continue
+                captured = {x.id for a in list(st.value.args) + [k.value for k in st.value.keywords] for x in ast.walk(a) if isinstance(x, ast.Name)}
+                stable = all((binds.get(c, 0) == 0) or (binds.get(c, 0) == 1 and c not in params and
+                             any(isinstance(n, ast.Name) and n.id == c and isinstance(n.ctx, ast.Store) and n.lineno < st.lineno for n in own)) for c in captured)
+                if not stable or any(k.arg is not None and any(k2.arg == k.arg for k2 in c.keywords) for k in st.value.keywords for c in calls):
+                    continue
+                for c in calls:
+                    c.func = _copy.deepcopy(st.value.args[0])
+                    c.args = [_copy.deepcopy(a) for a in st.value.args[1:]] + c.args
+                    c.keywords = [_copy.deepcopy(k) for k in st.value.keywords if k.arg is not None] + c.keywords + [_copy.deepcopy(k) for k in st.value.keywords if k.arg is None]
+                    for y in ast.walk(c):
+                        if not hasattr(y, 'lineno'):
+                            ast.copy_location(y, c)
+                    ast.fix_missing_locations(c)
+                body.remove(st)
+                if not body:
+                    body.append(ast.copy_location(ast.Pass(), st))
+
+
+def _expand_kwargs_tables(fn) -> None:
+    """`d = {'a': x, 'b': y}` ... `f(.., **d)`  ->  `f(.., a=x, b=y)` when d is bound once to a dict display with constant string keys, is used for
+    nothing but `**d` expansions after the binding, and the plain names in its values are not re-bound in the function after the binding."""
+    import copy as _copy
+    own = [n for n in ast.walk(fn)]
+    inner = {id(y) for x in own if isinstance(x, (ast.FunctionDef, ast.AsyncFunctionDef, ast.Lambda)) and x is not fn for y in ast.walk(x) if y is not x}
+    stores = {}
+    for n in own:
+        if isinstance(n, ast.Name) and isinstance(n.ctx, (ast.Store, ast.Del)):
+            stores.setdefault(n.id, []).append(n)
+    params = {a.arg for a in fn.args.posonlyargs + fn.args.args + fn.args.kwonlyargs}
+    for holder in own:
+        for field in ('body', 'orelse', 'finalbody'):
+            body = getattr(holder, field, None)
+            if not isinstance(body, list) or id(holder) in inner:
+                continue
+            for st in list(body):
+                if not (isinstance(st, ast.Assign) and len(st.targets) == 1 and isinstance(st.targets[0], ast.Name) and isinstance(st.value, ast.Dict) and st.value.keys
+                        and all(isinstance(k, ast.Constant) and isinstance(k.value, str) and k.value.isidentifier() for k in st.value.keys)):
+                    continue
+                d = st.targets[0].id
+                if len(stores.get(d, [])) != 1 or d in params or any(id(n) in inner for n in own if isinstance(n, ast.Name) and n.id == d):
+                    continue
+                uses = [n for n in own if isinstance(n, ast.Name) and n.id == d and isinstance(n.ctx, ast.Load)]
+                spreads = [(c, k) for c in own if isinstance(c, ast.Call) for k in c.keywords if k.arg is None and isinstance(k.value, ast.Name) and k.value.id == d]
+                if not spreads or len(uses) != len(spreads) or any(c.lineno < st.lineno for c, _ in spreads):
+                    continue
+                captured = {x.id for v in st.value.values for x in ast.walk(v) if isinstance(x, ast.Name)}
+                if any(any(n.lineno >= st.lineno for n in stores.get(c, [])) for c in captured):
+                    continue
+                if any(k2.arg in {k.value for k in st.value.keys} for c, _ in spreads for k2 in c.keywords):
+                    continue
+                for c, k in spreads:
+                    new = [ast.keyword(arg=q.value, value=_copy.deepcopy(v)) for q, v in zip(st.value.keys, st.value.values)]
+                    i = c.keywords.index(k)
+                    c.keywords[i:i + 1] = new
+                    ast.fix_missing_locations(c)
+                body.remove(st)
+                if not body:
+                    body.append(ast.copy_location(ast.Pass(), st))
 
 
 def _fuse_batch_counter(fn) -> None:
@@ -772,6 +983,7 @@ class Repo:
         if os.environ.get('VERIF_NO_INLINE') == '1':
             self.baseline = None
         self.ext_refs = self._external_refs(pkg_dir) if self.baseline is not None else set()
+        self.passed = self._passed_arguments(pkg_dir) if self.baseline is not None else {}
         for dirpath, dirnames, filenames in os.walk(pkg_dir):
             dirnames[:] = sorted(d for d in dirnames if d != '__pycache__')
             for fn in sorted(filenames):
@@ -781,6 +993,38 @@ class Repo:
                     if rel.endswith('.__init__'):
                         rel = rel[: -len('.__init__')]
                     self.modules[rel] = Module(self, rel, path)
+
+    @staticmethod
+    def _passed_arguments(pkg_dir) -> dict:
+        """function name (last component of the callee) -> (keyword names passed at some call in the package, largest number of positional
+        arguments, some call spreads * / **, the name is used other than as a callee)"""
+        out: dict = {}
+        for dirpath, dirnames, filenames in os.walk(pkg_dir):
+            for fn in filenames:
+                if not fn.endswith('.py'):
+                    continue
+                try:
+                    with open(os.path.join(dirpath, fn), encoding='utf-8') as fh:
+                        t = ast.parse(fh.read())
+                except (SyntaxError, OSError):
+                    continue
+                callee_ids = set()
+                for n in ast.walk(t):
+                    if isinstance(n, ast.Call):
+                        nm = n.func.id if isinstance(n.func, ast.Name) else n.func.attr if isinstance(n.func, ast.Attribute) else None
+                        callee_ids.add(id(n.func))
+                        if nm is None:
+                            continue
+                        rec = out.setdefault(nm, [set(), 0, False, False])
+                        rec[0] |= {k.arg for k in n.keywords if k.arg}
+                        rec[1] = max(rec[1], len(n.args))
+                        rec[2] = rec[2] or any(k.arg is None for k in n.keywords) or any(isinstance(a, ast.Starred) for a in n.args)
+                for n in ast.walk(t):
+                    if isinstance(n, (ast.Name, ast.Attribute)) and isinstance(n.ctx, ast.Load) and id(n) not in callee_ids:
+                        nm = n.id if isinstance(n, ast.Name) else n.attr
+                        if nm in out:
+                            out[nm][3] = True
+        return out
 
     @staticmethod
     def _external_refs(pkg_dir) -> set[str]:
@@ -863,6 +1107,23 @@ class Repo:
                         break
                     return None
             else:
+                return None
+        return None
+
+    def find_class(self, dotted: str | None):
+        """ClassDef of the package for a resolved dotted name (following one re-export), or None."""
+        if not dotted:
+            return None
+        parts = dotted.split('.')
+        for i in range(len(parts) - 1, 0, -1):
+            mn = '.'.join(parts[:i])
+            if mn in self.modules and i == len(parts) - 1:
+                m = self.modules[mn]
+                for n in m.tree.body:
+                    if isinstance(n, ast.ClassDef) and n.name == parts[-1]:
+                        return n
+                if parts[-1] in m.imports and m.imports[parts[-1]] != dotted:
+                    return self.find_class(m.imports[parts[-1]])
                 return None
         return None
 
